@@ -10,6 +10,7 @@ from typing import (
     ClassVar,
     Dict,
     List,
+    Literal,
     Optional,
     Set,
     Tuple,
@@ -120,8 +121,11 @@ else:
     def _get_non_none_type(t: Any) -> Any:
         """Extract the non-None type from Optional[T]."""
         if _is_optional(t):
-            args = get_args(t)
-            return next(arg for arg in args if arg is not type(None))
+            non_none = tuple(arg for arg in get_args(t) if arg is not type(None))
+            if len(non_none) == 1:
+                return non_none[0]
+            # Optional[Union[A, B]] is Union[A, B, None]: keep every member
+            return Union[non_none]
         return t
 
     def _resolve_type_alias(annotation, field_name=None, class_module=None):
@@ -287,6 +291,19 @@ else:
                 f"value does not match any type in Union[{', '.join(type_names)}]",
                 current_path,
                 "union_mismatch",
+            )
+
+        # Literal[...] members (discriminator tags such as `type` / `jsonrpc`):
+        # the value must be one of the listed constants, so that a union of
+        # tagged models picks the variant the tag names
+        if origin is Literal:
+            for allowed in get_args(expected):
+                if type(value) is type(allowed) and value == allowed:
+                    return value
+            raise ValidationError(
+                f"value is not one of {get_args(expected)!r}",
+                current_path,
+                "literal_error",
             )
 
         # Simple type validation
